@@ -39,8 +39,12 @@ func NewServer() (*Server, error) {
 		MaxRequestBodySize: 1 * 1024 * 1024,
 
 		MaxIdleWorkerDuration: 15 * time.Second,
-		ReduceMemoryUsage:     true,
+		ReduceMemoryUsage:     false,
 		Concurrency:           0,
+		// ReduceMemoryUsage stays off: with it fasthttp waits for the first byte
+		// of a new connection without any deadline, so a client that connects
+		// and sends nothing is never given up on (ReadTimeout does not apply
+		// yet) and keeps its descriptor for as long as it likes
 
 		TCPKeepalive:      true,
 		DisableKeepalive:  false,
